@@ -305,10 +305,13 @@ def rule_scan(ck: Check, repo: Repo) -> None:
     class H(Hooks):
         def atom(self, text, node, it):
             return {"path.suffix": "has_suffix", "path.stem in self.license_map": "stem_known",
+                    "path.name in self.license_map": "name_known", "path.name in LICENSE_MAP": "name_known",
                     "_LICENSEREF_PATTERN.match(path.stem)": "stem_lref"}.get(text)
 
     def ref(v):
-        if not v("has_suffix"):
+        # 'a LICENSES/ file whose whole name is an SPDX identifier is reported as lacking a file extension': the whole
+        # name is looked at before the part in front of the last dot (Python-2.0.1 / Python-2.0, OLDAP-2.0.1 / OLDAP-2.0)
+        if not v("has_suffix") or v("name_known"):
             return ("raise", "SpdxIdentifierNotFoundError")
         if v("stem_known") or v("stem_lref"):
             return ("return", "path.stem")
@@ -317,7 +320,11 @@ def rule_scan(ck: Check, repo: Repo) -> None:
     for d, leaf, exp in tabulate(fn, H(), ref):
         r.instance("id:" + show_valuation(d), {"valuation": show_valuation(d), "outcome": leaf.outcome[:2]})
         if leaf.outcome[:2] != exp:
-            r.violation(q, f"[{show_valuation(d)}]", f"{leaf.outcome[:2]}, expected {exp}", repo.loc(fn))
+            hint = ""
+            if d.get("name_known"):
+                hint = (" - `LICENSES/Python-2.0.1` (whole name is an SPDX identifier, so the file lacks an extension) is registered"
+                        " as `Python-2.0`: lint reports Python-2.0.1 missing and Python-2.0 unused instead of the missing extension")
+            r.violation(q, f"[{show_valuation(d)}]", f"{leaf.outcome[:2]}, expected {exp}{hint}", repo.loc(fn))
     q2 = f"{PJ}._find_licenses"
     f2 = repo.func(q2)
 
